@@ -31,7 +31,7 @@ CHECKS = {
   category="model_checking",
   text="Solver verdict that, for every supplied value (equal or conflicting) under each checked presence pattern of flags/environment/config file over all 27 settings, the merged Settings take each field from the highest-precedence source that supplies it and otherwise the built-in default; switches are the OR of all sources; hidden lists are the union; the config file consulted is the named one, else ord.yaml in the config dir / data dir / default data dir only if it exists; a username without password is refused.",
   design_ref="DESIGN.md §3 C36",
-  note="clap's argv -> Options step and YAML parsing are not covered (from_options is decided over the real struct Options, from_env over literal ORD_ keys with abstract string values); presence patterns are a stated finite set (16+6 quick, +40 thorough), values are unrestricted"),
+  note="clap's argv -> Options step and YAML parsing are not covered (from_options is decided over the real struct Options, from_env over literal ORD_ keys with abstract string values); presence patterns are a stated finite set (16+6 quick, +300 thorough), values are unrestricted"),
  "C29": dict(
   engine="E2-mir2smt",
   technique="path-wise symbolic execution of the rustc MIR of crates/ordinals into SMT (z3 Int theory, cvc5 cross-check), one query per path per claim; translator validated against native execution each run; counterexamples replayed natively",
